@@ -130,7 +130,14 @@ class SelectPlan:
         if self.names is None:
             self.names = names
         self.group_by = [self._positional(e, True) for e in sel.group_by]
-        self.having = comp.expr(sel.having, scope, True) if sel.having is not None else None
+        scope.group_cols = {e[2].lower() for e in sel.group_by if e[0] == 'col'}
+        explicit = {a.lower() for _, a in sel.columns if a is not None}
+        saved = scope.aliases
+        scope.aliases = {k: f for k, f in saved.items() if k in explicit}  # only explicit aliases pre-empt FROM columns in HAVING
+        try:
+            self.having = comp.expr(sel.having, scope, 'having') if sel.having is not None else None
+        finally:
+            scope.aliases = saved
         self.order_by = [(self._positional(e, 'first'), desc) for e, desc in sel.order_by]
         scope.allow_agg = False
         self.limit = comp.expr(sel.limit, Scope(parent=None, routine=scope.routine)) if sel.limit is not None else None
